@@ -43,6 +43,8 @@ type FlowOpts struct {
 	Generations  int  // incarnations (1: no restart)
 	FaultFreeAfterStop bool
 	StopW        int // weight of the environment action "stop the process"
+	HostileN     int // hostile injections per run
+	HostileHandshake int // permille of CONNECTs answered by a hostile reply
 	StopWhenPublished bool // the incarnation stops (at rest) once every publish call has returned
 	Closers      int    // Close/Disconnect invocations
 	CloserMix    [4]int // Close, Disconnect(nil), Disconnect(open quit), Disconnect(closed quit)
@@ -132,6 +134,11 @@ type Flow struct {
 	InSent       int // application messages the broker has been given so far
 	Owned        map[uint16]int // inbound exactly-once identifiers whose marker is stored -> step of the Save
 	Damage     []DamageRec
+	Hostiles   []*HostileInj
+	HostileLeft int
+	ReaderIn   string // API call the reader task is in
+	ReaderInEnd string // ... when the scheduler loop ended
+	LastReadTime map[int]time.Duration
 	HoldFinalAcks bool
 	LoadDamage int // Load results altered in flight
 	lastSeq    uint64
@@ -398,7 +405,9 @@ func (f *Flow) readerTask(s *Sim) {
 			last = nil
 		}
 		f.RSInvokes++
+		f.ReaderIn = "ReadSlices"
 		msg, topic, err := f.C.ReadSlices()
+		f.ReaderIn = ""
 		f.RSReturns++
 		f.LastRSReturn = w.Steps
 		if err == nil {
@@ -424,7 +433,9 @@ func (f *Flow) readerTask(s *Sim) {
 			if !s.dead && w.Tape.Flip("bigread", 600) {
 				s.Pause("before-ReadAll")
 				r.BigRead = true
+				f.ReaderIn = "ReadAll"
 				r.Msg, r.BigErr = big.ReadAll()
+				f.ReaderIn = ""
 			}
 			r.Out = f.outByTopic(r.Topic)
 			f.Recvs = append(f.Recvs, r)
@@ -690,6 +701,7 @@ func (f *Flow) env() []Action {
 	}
 	acts = append(acts, f.quitActions()...)
 	acts = append(acts, f.closerActions()...)
+	acts = append(acts, f.hostileActions()...)
 	if f.O.StopW > 0 && w.Gen < f.O.Generations && f.C != nil && w.StopParam < 0 {
 		acts = append(acts, Action{Name: "stop", Weight: f.O.StopW, Run: func() {
 			w.Faults["stop_anywhere"]++
@@ -779,6 +791,13 @@ func (f *Flow) AdoptedGen(gen int) bool { return f.adopted[gen] }
 func (f *Flow) goalReached() bool {
 	if f.InSent < f.O.Inbound {
 		return false
+	}
+	for _, h := range f.Hostiles {
+		// what the client has read of a hostile stream it must also get
+		// to act upon before the run may end
+		if c := h.C; c.Gen == f.W.Gen && (h.Definite || h.Stall) && c.rdCur >= h.End && !c.ClosedLive && c.Broken == 0 {
+			return false
+		}
 	}
 	if f.StrictInbound && len(f.Recvs) < f.InSent && len(f.ReaderErrs) == 0 {
 		return false
